@@ -7,7 +7,7 @@ from concurrent.futures import ProcessPoolExecutor
 from lib import common, play, stories
 
 LEVEL = "proof"
-THEOREM_MODULES = ["Proofs.C02", "Proofs.C02State", "Proofs.Tables"]
+THEOREM_MODULES = ["Proofs.C02", "Proofs.C02State", "Proofs.Tables", "Proofs.C02Reach", "Proofs.C02Counters"]
 REQUIRED_THEOREMS = [
     "Ink.C02.cmd_roundtrip", "Ink.C02.native_name_roundtrip", "Ink.C02.native_not_cmd", "Ink.C02.native_roundtrip",
     "Ink.C02.cmd_obj_roundtrip", "Ink.C02.simple_obj_roundtrip", "Ink.C02.string_roundtrip",
@@ -17,7 +17,8 @@ REQUIRED_THEOREMS = [
     "Ink.C02.readFlow_writeFlow", "Ink.C02.loadStateObj_ok", "Ink.C02.loadState_saveState",
     "Ink.C02.loadState_saveState_exact", "Ink.C02.loadState_saveState_self", "Ink.C02.create_saveable",
     "Ink.C02.saveableB_sound", "Ink.C02.exRoundTrip", "Ink.C02.nonfinite_float_clamped",
-]
+    # which components of Saveable are invariants of the public operations (tree, call-stack shape, counters) and which are not (three reachable counterexamples on hand-written documents / edited saves)
+    "Ink.C02R.reachable_root", "Ink.C02R.reachable_treeOK", "Ink.C02R.reachable_callstack", "Ink.C02R.runOps_reach", "Ink.C02R.reachable_counters", "Ink.C02R.reachable_visitCounts", "Ink.C02R.reachable_turnIndices", "Ink.C02R.reachable_turnIndex", "Ink.C02R.reachable_previousRandom", "Ink.C02R.reach_reachable", "Ink.C02R.treeOK_not_invariant_of_loader", "Ink.C02R.flowNames_not_invariant", "Ink.C02R.globals_not_invariant"]
 from lib.tables_thms import TABLE_THEOREMS  # noqa: E402
 REQUIRED_THEOREMS = REQUIRED_THEOREMS + TABLE_THEOREMS
 RULE = ("a case = one story x one save point along a random history (after a line, at a choice point, at the end, "
